@@ -274,7 +274,7 @@ pub fn run_case(case: &Case, names: &HashMap<String, u16>) {
         let l = k.layout.b();
         writeln!(
             o,
-            "END tick={} down=[{}] nstates={} layer={} idle={} scroll={} move={}",
+            "END tick={} down=[{}] nstates={} layer={} idle={} scroll={} move={} rec={}",
             tick,
             prev.join(" "),
             l.states.len(),
@@ -282,6 +282,7 @@ pub fn run_case(case: &Case, names: &HashMap<String, u16>) {
             k.is_idle() as u8,
             (k.scroll_state.is_some() as u8) + (k.hscroll_state.is_some() as u8),
             (k.move_mouse_state_vertical.is_some() as u8) + (k.move_mouse_state_horizontal.is_some() as u8),
+            k.dynamic_macro_record_state.is_some() as u8,
         )
         .unwrap();
     }));
